@@ -7,10 +7,11 @@ import numpy as np
 
 from harness.common import q2s, s2q, run_driver, lean_obligations
 
-MODULE = 'Ndt.Props.C04'
+MODULE = 'Ndt.Props.C04Multi'
 THEOREMS = ['Ndt.hessian_fdel_symmetric', 'Ndt.hessFlat_symmetric', 'Ndt.hessForward_quadratic', 'Ndt.hessForward_quadratic_diag',
             'Ndt.hessCentral_quadratic', 'Ndt.hessCentral_quadratic_diag', 'Ndt.hessCentral2_quadratic', 'Ndt.quadratic_form_along',
-            'Ndt.bestEstimate_equal_columns', 'Ndt.hessian_constant_table', 'Ndt.hessdiag_exact']
+            'Ndt.bestEstimate_equal_columns', 'Ndt.hessian_constant_table', 'Ndt.hessdiag_exact',
+            'Ndt.hessComplex_quadratic', 'Ndt.phi_bcMPoly', 'Ndt.hessMulticomplex_quadratic']
 METHODS = ['central', 'central2', 'forward', 'backward', 'complex', 'multicomplex']
 
 
@@ -25,7 +26,7 @@ def run(ctx):
     cases = []
     for _ in range(ctx.budget(120, 1200)):
         n = rng.randint(1, 3)
-        name = rng.choice(['_forward', '_backward', '_central_even', '_central2'])
+        name = rng.choice(['_forward', '_backward', '_central_even', '_central2', '_complex_even', '_multicomplex2'])
         monos = []
         for _m in range(rng.randint(1, 5)):
             es = [rng.randint(0, 3) for _ in range(n)]
